@@ -189,6 +189,7 @@ type rxPacket struct {
 // Up to N parallel servers
 func (svr *Server) sftpServerWorker(pktChan chan orderedRequest) error {
 	for pkt := range pktChan {
+		simYield("srv.worker", uint64(pkt.orderID()))
 		// readonly checks
 		readonly := true
 		switch pkt := pkt.requestPacket.(type) {
